@@ -12,8 +12,8 @@ def main():
     rc = 0
     os.makedirs(core.BUILD, exist_ok=True)
     # Lean: whole library + all drivers
-    lf = open(os.path.join(core.LEAN, "lakefile.toml")).read()
-    exes = re.findall(r'^name = "(drv_[a-z0-9_]+)"', lf, re.M)
+    exes = sorted("drv_" + f[:-5].lower() for f in os.listdir(os.path.join(core.LEAN, "Driver")) if f.endswith(".lean"))
+    props = sorted("Chain33Model.Props." + f[:-5] for f in os.listdir(os.path.join(core.LEAN, "Chain33Model", "Props")) if f.endswith(".lean"))
     try:
         from . import facts
         ok, log = facts.regenerate()
@@ -22,7 +22,7 @@ def main():
             rc = 1
     except ImportError:
         pass
-    ok, log = core.lean_build(["Chain33Model"] + exes)
+    ok, log = core.lean_build(["Chain33Model"] + props + exes)
     print(log[-3000:])
     if not ok:
         rc = 1
